@@ -92,6 +92,32 @@ func roleOf(l *Loaded, v ssa.Value, recv string, d int) string {
 			if s := storedInto(al); s != nil {
 				return roleOf(l, s, recv, d+1)
 			}
+			// array literal (e.g. variadic arguments): render its elements
+			if _, isArr := arrayLenOf(al.Type()); isArr {
+				type el struct {
+					i int64
+					r string
+				}
+				var els []el
+				for _, r := range refs(al) {
+					if ia, ok := r.(*ssa.IndexAddr); ok {
+						idx, _ := constInt(ia.Index)
+						for _, rr := range refs(ia) {
+							if st, ok := rr.(*ssa.Store); ok {
+								els = append(els, el{idx, roleOf(l, st.Val, recv, d+1)})
+							}
+						}
+					}
+				}
+				if len(els) > 0 {
+					sort.Slice(els, func(i, j int) bool { return els[i].i < els[j].i })
+					var ps []string
+					for _, e := range els {
+						ps = append(ps, e.r)
+					}
+					return "[" + strings.Join(ps, ",") + "]"
+				}
+			}
 			return "local"
 		}
 		return roleOf(l, x.X, recv, d+1)
